@@ -30,6 +30,24 @@ TRUSTED = ["frozen 3-row correspondence LiteralKind<->TokenValue (kinds.py), val
 GENERAL_EVAL = ('eval::eval_any', 'eval::eval_terminal', 'eval::eval_variable')
 
 
+def general_eval(facts):
+    """GENERAL_EVAL plus the private helpers written since the pinned tree that only hand their node on to one of them
+    (`fn eval_unannotated(ctx, node) { eval_any(ctx, node, AnnRef::default()) }`): whatever kind the node has arrives"""
+    out = set(GENERAL_EVAL)
+    known = facts.known_fns_or_aliases()
+    for q, l in facts.by_qname.items():
+        fn = l[0]
+        if not q.startswith('oal_compiler::eval::eval_') or q in known or fn.kind == 'Closure' or not fn.hir:
+            continue
+        body = fn.hir['body']
+        while body is not None and body['k'] == 'block' and not body['stmts']:
+            body = body['expr']
+        if body is not None and body['k'] == 'call' and ('eval::' + (callee_def(body) or '').split('eval::')[-1]) in GENERAL_EVAL and len(body['args']) >= 2 \
+                and body['args'][1]['k'] == 'path' and body['args'][1]['p'].get('res') == 'local':
+            out.add('eval::' + q.split('::')[-1])
+    return tuple(out)
+
+
 def _is_ok_ctor(x):
     return x is not None and x['k'] == 'call' and variant_of(x['f']) == 'Ok'
 
@@ -375,6 +393,7 @@ def r1_agree(c, facts, T):
         return s
 
     npos = nobl = 0
+    GENERAL_EVAL = general_eval(facts)
     concrete = set(T.tags) - {'Var'}
     for row in es:
         pos, cast, g = row['pos'], row['cast'], row['guard']
